@@ -1,7 +1,7 @@
 """C15 Token sets equal their fixpoint definitions.
 
 Seeded random grammars (extended notation, 1-4 nonterminals, optional 'error' terminal, 1-2 inputs) with up to three %generate named
-sets (first/last/follow/precede/any of terminals and nonterminals, |, &, ~, references to earlier named sets) and optionally one in-rule
+sets (first/last/follow/precede/any of terminals and nonterminals, |, &, ~, references to named sets, in a third of the grammars also forward and mutually recursive ones) and optionally one in-rule
 set(...) are compiled by the real front end. TLC SetsTrace evaluates TokenSets.tla on the dumped plain rules: each named set and the
 in-rule set equal the least-fixpoint definitions, afterErr = follow(error), and a complement self-dependency (decided on the dependency
 graph of the twin grammar in which the in-rule set is opaque) is rejected - and nothing else is.
@@ -34,4 +34,4 @@ def run(ctx):
     ctx.cov["rule"] = ("Seeded random grammars with named sets and in-rule sets compiled by the real front end; TLC compares every resolved set "
                        "(grammar.Grammar.Sets[].Terminals, the in-rule set's alternatives, afterErr) with the least fixpoints of TokenSets.tla over the "
                        "reachable plain rules, and the complement-cycle rejection with the dependency-graph criterion.")
-    ctx.assumptions += ["the .tm renderer of the harness is trusted", "named sets refer to earlier named sets only (forward references do not resolve in the implementation)"]
+    ctx.assumptions += ["the .tm renderer of the harness is trusted", "named sets refer to earlier ones in 2/3 of the grammars and to any named set (forward, mutual, self) in the rest"]
